@@ -7,16 +7,20 @@ RREL grammar -> Gen/SrcRrelSyntax.v.
   to a Gallina function over the attribute values (`Model/RrelSyntaxLib.v` combinators); the
   printer of the model (`Model/RrelSyntaxText.v: print_src`) only dispatches to these functions,
   so an edited __repr__ changes the function the theorems are proved about;
-* the regex terminals (rrel_id, rrel_dots, the flags prefix, lang.string_value) are translated
-  to `Model/Rx.v` ASTs through Python's own regex parser (regex_tr.coq_of_pattern); the lexer of
-  the model matches with exactly these;
-* the string terminals of the grammar functions, the PEG structure, the visitor methods, the
-  constructors and `parse` are pinned: any deviation from the transcribed source raises
-  (fail closed: nothing is emitted, the check reports translator-failed).
+* the regex terminals (rrel_id, rrel_dots, the flags prefix, lang.string_value: the pattern texts
+  of the compiled regexes of the LIVE parser, located by rule name) are translated to `Model/Rx.v`
+  ASTs through Python's own regex parser (regex_tr.coq_of_pattern); the lexer of the model
+  matches with exactly these;
+* the visitor methods, the constructors and `parse` are pinned: any deviation from the
+  transcribed source raises (fail closed: nothing is emitted, the check reports translator-failed);
+* the LIVE parser model (`ParserPython(rrel_standalone, reduce_tree=False)` built by importing
+  $TEXTX_REPO in tools/impl/c12.py, walked by tools/pegdump.py) is emitted as a
+  `Model/PegSyntax.v` table `rrel_peg`; Proofs/RrelSyntaxPegProofs.v compares it structurally
+  (vm_compute) with the PEG the token parser was written from (Model/RrelSyntaxPeg.v).
 """
 import ast
 
-from .common import parse_file, find_func, need, emit, coq_codes, TranslateError
+from .common import parse_file, find_func, need, emit, coq_codes, TranslateError, core
 from . import regex_tr
 
 # attribute kinds: S str, B bool, OS optional str, NAT int >= 0, C child node (passed printed),
@@ -49,22 +53,6 @@ INIT = {
                  "    self.path_elements[0] = RRELZeroOrMore(RRELBrackets(RRELSequence([RRELPath([RRELDots(2)])])))"),
 }
 INIT_EXPR_HEAD = "self.seq = seq\nself.flags = flags\nself.importURI = 'm' in flags\nself.use_proxy = 'p' in flags"
-
-# the PEG (return expressions of the grammar functions; REGEX stands for a `_(r"...")` call)
-GRAMMAR = {
-    "rrel_id": "REGEX",
-    "rrel_parent": "('parent', '(', rrel_id, ')')",
-    "rrel_navigation": "[(Optional('~'), rrel_id), (Optional(string_value), '~', rrel_id)]",
-    "rrel_brackets": "('(', rrel_sequence, ')')",
-    "rrel_dots": "REGEX",
-    "rrel_path_element": "[rrel_parent, rrel_brackets, rrel_navigation]",
-    "rrel_zero_or_more": "(rrel_path_element, '*')",
-    "rrel_path": ("[(Optional(['^', rrel_dots]), ArpeggioZeroOrMore([rrel_zero_or_more, rrel_path_element], '.'), "
-                  "[rrel_zero_or_more, rrel_path_element]), ['^', rrel_dots]]"),
-    "rrel_sequence": "(ArpeggioZeroOrMore(rrel_path, ','), rrel_path)",
-    "rrel_expression": "(Optional(REGEX), rrel_sequence)",
-    "rrel_standalone": "(rrel_expression, EOF)",
-}
 
 VISITOR = {
     "visit_rrel_parent": "return RRELParent(children[0])",
@@ -278,50 +266,38 @@ def compile_repr(tree, cls, attrs):
     return "Definition repr_%s %s : list N :=\n  %s." % (cls, params, term)
 
 
-# ---------------------------------------------------------------- grammar
-def _regex_of(call):
-    pat = regex_tr._regex_call_pattern(call)
-    need(pat is not None and len(call.args) == 1 and not call.keywords, "regex terminal with extra arguments: %s" % ast.unparse(call))
-    return pat
+# ---------------------------------------------------------------- grammar: the live parser
+def live_peg():
+    """dump of ParserPython(rrel_standalone, reduce_tree=False) and the pattern texts of its regex terminals,
+    located by rule name (the structure itself is checked in Coq: Proofs/RrelSyntaxPegProofs.v)."""
+    d = core.run_impl("c12", {"mode": "dump"})
+    need(not d.get("cache_alias") and d.get("memoization") is False, "unexpected parser options in the live RREL parser")
+    nodes = d["nodes"]
+    for nd in nodes:
+        for k in nd["kids"] + ([nd["sep"]] if nd["sep"] is not None else []):
+            need(0 <= k < len(nodes), "dangling node id in the dumped RREL PEG")
+    need(all(o[0] == "re" for o in d["oracles"]), "ignore_case terminals in the live RREL parser")
 
+    def rule(name):
+        r = [n for n in nodes if n["root"] and n["rule"] == name]
+        need(len(r) == 1, "rule %s occurs %d times in the live RREL parser" % (name, len(r)))
+        return r[0]
 
-def grammar_facts(tree):
-    imps = [ast.unparse(n) for n in tree.body if isinstance(n, ast.ImportFrom) and n.module == "arpeggio"]
-    need("from arpeggio import RegExMatch as _" in imps, "`from arpeggio import RegExMatch as _` not found in rrel.py")
-    need("from arpeggio import ZeroOrMore as ArpeggioZeroOrMore" in imps, "ArpeggioZeroOrMore import changed")
-    need(any(i.startswith("from arpeggio import") and "Optional" in i and "EOF" in i for i in imps), "Optional/EOF import changed")
-    regexes = {}
-    for name, want in GRAMMAR.items():
-        fn = find_func(tree, name)
-        need(fn in tree.body and not fn.args.args and not fn.decorator_list, "%s is not a plain module-level rule function" % name)
-        body = [s for s in fn.body if not (isinstance(s, ast.ImportFrom))]
-        imports = [ast.unparse(s) for s in fn.body if isinstance(s, ast.ImportFrom)]
-        need(imports == (["from textx.lang import string_value"] if name == "rrel_navigation" else []), "%s imports changed" % name)
-        need(len(body) == 1 and isinstance(body[0], ast.Return), "%s body is not a single return" % name)
-        rv = body[0].value
-        found = []
+    def pattern(nd, what):
+        need(nd["kind"] == "KRegex", "%s is not a regex terminal in the live RREL parser" % what)
+        o = d["oracles"][nd["oid"]]
+        need(o[2] == 40, "%s is compiled with flags %d (expected re.MULTILINE|re.UNICODE)" % (what, o[2]))
+        return o[1]
 
-        class Sub(ast.NodeTransformer):
-            def visit_Call(self, node):
-                if isinstance(node.func, ast.Name) and node.func.id == "_":
-                    found.append(_regex_of(node))
-                    return ast.Name(id="REGEX", ctx=ast.Load())
-                return self.generic_visit(node)
-        shape = ast.unparse(Sub().visit(ast.parse(ast.unparse(rv), mode="eval").body))
-        need(shape == want, "grammar rule %s changed: %s" % (name, shape))
-        if found:
-            need(len(found) == 1, "%s has %d regexes" % (name, len(found)))
-            regexes[name] = found[0]
-    # string_value of lang.py: two regex alternatives, single- then double-quoted
-    ltree, _ = parse_file("textx/lang.py")
-    sv = find_func(ltree, "string_value")
-    need(len(sv.body) == 1 and isinstance(sv.body[0], ast.Return) and isinstance(sv.body[0].value, ast.List)
-         and len(sv.body[0].value.elts) == 2, "lang.string_value is not a choice of two regexes")
-    regexes["string_value_0"], regexes["string_value_1"] = [_regex_of(c) for c in sv.body[0].value.elts]
-    limp = [n for n in ltree.body if isinstance(n, ast.ImportFrom) and n.module == "arpeggio"
-            and any(a.name == "RegExMatch" and a.asname == "_" for a in n.names)]
-    need(len(limp) == 1, "`RegExMatch as _` not imported in lang.py")
-    return regexes
+    rx = {"rrel_id": pattern(rule("rrel_id"), "rrel_id"), "rrel_dots": pattern(rule("rrel_dots"), "rrel_dots")}
+    ex = rule("rrel_expression")
+    need(ex["kind"] == "KSeq" and len(ex["kids"]) == 2 and nodes[ex["kids"][0]]["kind"] == "KOpt"
+         and len(nodes[ex["kids"][0]]["kids"]) == 1, "rrel_expression is not (Optional(flags), sequence)")
+    rx["rrel_expression"] = pattern(nodes[nodes[ex["kids"][0]]["kids"][0]], "the flags prefix")
+    sv = rule("string_value")
+    need(sv["kind"] == "KChoice" and len(sv["kids"]) == 2, "string_value is not a choice of two terminals")
+    rx["string_value_0"], rx["string_value_1"] = [pattern(nodes[k], "string_value alternative") for k in sv["kids"]]
+    return d, rx
 
 
 def pinned(tree):
@@ -353,7 +329,7 @@ def pinned(tree):
 def translate():
     tree, _ = parse_file("textx/scoping/rrel.py")
     pinned(tree)
-    rx = grammar_facts(tree)
+    d, rx = live_peg()
     regex_tr.arpeggio_default_multiline()
     import arpeggio
     need(arpeggio.Parser.__init__.__defaults__ is not None, "arpeggio.Parser signature changed")
@@ -362,7 +338,7 @@ def translate():
     need(sig["skipws"].default is True and sig["ws"].default is None and arpeggio.DEFAULT_WS == "\t\n\r ",
          "Arpeggio whitespace defaults changed")
     need(sig["autokwd"].default is False and sig["ignore_case"].default is False, "Arpeggio autokwd/ignore_case defaults changed")
-    lines = ["From TxV Require Import Core.Base Model.Rx Model.RrelSyntaxLib.", "",
+    lines = ["From TxV Require Import Core.Base Model.Rx Model.RrelSyntaxLib Model.PegSyntax.", "",
              "(* ---- the __repr__ methods (attribute values as arguments; children are passed printed) *)"]
     for cls, attrs in CLASSES:
         lines.append(compile_repr(tree, cls, attrs))
@@ -383,5 +359,16 @@ def translate():
               "Definition g_ws : list N := %s." % coq_codes(arpeggio.DEFAULT_WS),
               "", "(* Arpeggio compiles RegExMatch with re.MULTILINE and matches with regex.match(input, pos) *)",
               "Definition rrel_env (u : N -> N) : rxenv := mkenv true false false u."]
+    import pegdump
+    lines += ["", "(* ---- source texts of the regex terminals *)"]
+    for key, nm in (("rrel_id", "pat_rrel_id"), ("rrel_dots", "pat_rrel_dots"), ("rrel_expression", "pat_rrel_flags"),
+                    ("string_value_0", "pat_string_value_0"), ("string_value_1", "pat_string_value_1")):
+        lines.append("Definition %s : list N := %s." % (nm, coq_codes(rx[key])))
+    lines += ["", "(* ---- the live parser model of ParserPython(rrel_standalone, reduce_tree=False) (tools/pegdump.py) *)",
+              "Definition rrel_peg : grammar := %s." % pegdump.coq_grammar(d),
+              "Definition rrel_peg_config : config := %s." % pegdump.coq_config(d),
+              "(* oracle id -> (pattern text of the compiled regex, its re flags) *)",
+              "Definition rrel_peg_oracles : list (list N * nat) := [%s]." % "; ".join(
+                  "(%s, %d)" % (pegdump.coq_str(o[1]), o[2]) for o in d["oracles"])]
     emit("SrcRrelSyntax", "\n".join(lines) + "\n")
     return []
